@@ -340,8 +340,8 @@ func shapeOf(n *nbtNode, skipFirst bool) *goType {
 		if e == nil {
 			return nil
 		}
-		for _, x := range n.Lst[1:] { // all elements must fit one static type
-			if o := shapeOf(x, false); o == nil || o.class() != e.class() {
+		for _, x := range n.Lst[1:] { // all elements must fit one static type: the same kinds AND, for compounds, the same names
+			if o := shapeOf(x, false); o == nil || o.class() != e.class() || mustJSON(o) != mustJSON(e) {
 				return nil
 			}
 		}
